@@ -318,8 +318,31 @@ func (s *Solver) getModel(vars []*Term) Model {
 		case val == "_" && i+2 < len(toks) && strings.HasPrefix(toks[i+2], "bv"):
 			n, _ = strconv.ParseUint(toks[i+2][2:], 10, 64)
 		}
-		m[v] = n
+		m[v.Name] = n
 		i++
 	}
 	return m
+}
+
+// Solve decides the conjunction of conj as a standalone problem (nothing is kept
+// on the solver's assertion stack between calls) and returns values for wantVars on sat.
+func (s *Solver) Solve(conj []*Term, wantVars []*Term) (Verdict, Model) {
+	s.errLine = ""
+	s.Push()
+	for _, c := range conj {
+		s.define(c)
+	}
+	for _, v := range wantVars {
+		s.define(v)
+	}
+	for _, c := range conj {
+		s.Assert(c)
+	}
+	v := s.Check()
+	var m Model
+	if v == Sat {
+		m = s.getModel(wantVars)
+	}
+	s.Pop()
+	return v, m
 }
